@@ -112,6 +112,31 @@ def model_items(prog, r, with_labels=True):
     res0 = kvalue.res0_coq(ctl.res0s[0], ids, keys)
     rets = "[" + "; ".join(kvalue.ref_coq(u, ids, keys) for u in kvalue.ret_refs(d)) + "]"
     out = dict(ids=ids, kvalue="kvalue %s %s %s %s" % (specs, cfgc, res0, rets))
+    # nested DAG calls: the inner DAG (parameters bound) is embedded in this table through the id prefix
+    out["embeds"] = []
+    for st, ch in getattr(d, "_verif_subs", []):
+        ids2 = coqrun.Ids(set(ids.names) | kvalue.all_ids(ch) | set(ch.graph_ids.nodes))
+        specs1, err1 = kvalue.table_coq(ch, ids2, keys, r["registry"])
+        specs2, err2 = kvalue.table_coq(d, ids2, keys, r["registry"])
+        if specs1 is None or specs2 is None:
+            continue
+        pref = ch.qualname + "."
+        inner_ids = sorted(kvalue.all_ids(ch) | set(ch.graph_ids.nodes))
+        if any((pref + x) not in ids2.idx for x in inner_ids if x in ch.exec_nodes):
+            out["embeds"].append(dict(error="spliced id missing in the outer table: %s" % [pref + x for x in inner_ids if x in ch.exec_nodes and (pref + x) not in ids2.idx][:3]))
+            continue
+        rho = "[" + "; ".join("(%d, %d)" % (ids2(x), ids2(pref + x)) for x in inner_ids if (pref + x) in ids2.idx) + "]"
+        bound = [u.id for u in ch.input_uxns]
+        res1 = {k2: v2 for k2, v2 in ch.results.items() if k2 not in bound}
+        cfg1 = dict(nodes=sorted(ch.graph_ids.nodes), deps={i: sorted({u.id for u in ch.exec_nodes[i].dependencies}) for i in ch.graph_ids.nodes},
+                    pre=sorted(i for i in ch.graph_ids.nodes if i in res1), maxc=1, cp={i: 0 for i in ch.graph_ids.nodes},
+                    seq={i: False for i in ch.graph_ids.nodes}, res={i: "thread" for i in ch.graph_ids.nodes})
+        c1 = coqrun.sched_cfg_coq(cfg1, ids2)
+        c2 = coqrun.sched_cfg_coq(cfg, ids2)
+        r2 = kvalue.res0_coq(ctl.res0s[0], ids2, keys)
+        a_ = "embed_check %s %s %s %s %s %s %s %s" % (specs1, specs2, c1, c2, kvalue.res0_coq(res1, ids2, keys), r2, rho, coqrun.nat_list([ids2(x) for x in bound]))
+        b_ = "all_none_check %s %s %s %s %s" % (specs2, c2, r2, rho, coqrun.nat_list([ids2(x) for x in ch.graph_ids.nodes if not ch.exec_nodes[x].setup]))
+        out["embeds"].append(dict(a=a_, b=b_, flagged=st.get("active") is not None, ids=ids2, sub=ch.qualname))
     if with_labels:
         segs = sched_cases.segments(list(ctl.trace), ctl)
         if segs:
@@ -217,7 +242,7 @@ def make_config(rng, prog, how, tmpdir):
 def run(pid, tier, seed, res, p_sub=None, p_flag=None, only=None):
     import os
     rng = random.Random(seed * 15485863 + 3)
-    n = 140 if tier == "quick" else 2500
+    n = (140 if pid != "C20" else 70) if tier == "quick" else 2500
     focus = dict(C01=dict(p_sub=0.15, p_flag=0.2), C10=dict(p_sub=0.2, p_flag=0.55), C20=dict(p_sub=0.5, p_flag=0.2), C17=dict(p_sub=0.15, p_flag=0.2), C02=dict(p_sub=0.1, p_flag=0.2))[pid if pid in ("C01", "C10", "C20", "C17", "C02") else "C01"]
     tmpdir = os.path.join(coqrun.BUILD, "kv_%s" % pid)
     os.makedirs(tmpdir, exist_ok=True)
@@ -290,9 +315,18 @@ def run(pid, tier, seed, res, p_sub=None, p_flag=None, only=None):
             if "kvrun" in m:
                 where.append(("kvrun", pi, ai, r, m, base))
                 items.append(m["kvrun"])
+            if r["impl"][0] == "ok":
+                for em in m.get("embeds", []):
+                    if "error" in em:
+                        res.hit("C20", "divergence", "K-build: " + em["error"], dict(base, kind="divergence"))
+                        continue
+                    where.append(("embedA", pi, ai, r, em, base))
+                    items.append(em["a"])
+                    where.append(("embedB", pi, ai, r, em, base))
+                    items.append(em["b"])
     prefix = "kvalue_%s" % pid
     coqrun.clean_build(prefix)
-    paths = coqrun.write_shards(prefix, "Graph Sched Dataflow Terms", items, per_file=60)
+    paths = coqrun.write_shards(prefix, "Graph Sched Dataflow Terms IsoCheck", items, per_file=60)
     import time as _t
     _t0 = _t.time()
     results, errors = coqrun.run_shards(paths)
@@ -309,6 +343,22 @@ def run(pid, tier, seed, res, p_sub=None, p_flag=None, only=None):
             continue
         (si, vi) = r["impl"]
         props_ = ["C01", "C02"] + (["C10"] if has_flags(prog) else []) + (["C20"] if has_subs(prog) else [])
+        if kind == "embedA":
+            m["_a"] = v
+            continue
+        if kind == "embedB":
+            a_codes = m.get("_a")
+            if a_codes is None:
+                continue
+            res.traces_validated += 1
+            ok_active = a_codes == []
+            ok_off = m["flagged"] and v == [] and all(a_codes[i] == 4 for i in range(0, len(a_codes), 2))
+            if not (ok_active or ok_off):
+                codes = [(a_codes[i], m["ids"].names[a_codes[i + 1]]) for i in range(0, len(a_codes), 2)][:4]
+                for p in (["C20"] + (["C10"] if m["flagged"] else [])):
+                    res.hit(p, "divergence", "K-build: the nested DAG %s is neither embedded in the outer table with its parameters bound (codes %s; 1 node missing, 2 function, 3 arguments, 4 flag, 5 constant / default / setup value, 6 absent id) nor entirely None" % (m["sub"], codes),
+                            dict(base, kind="divergence", codes=codes))
+            continue
         if kind == "kvrun":
             res.traces_validated += 1
             if v[0] != 1:
